@@ -50,9 +50,9 @@ CLAIMED = {
  "C18": dict(
    text="Theorems in coq/Properties/C18.v over the executable model of klog's terminal formatting (coq/Model/Styler.v: StyleProps, seqs, Format, "
         "FormatAndRestore over an arbitrary theme record with the four themes of colour_theme.go as instances, StripAllAnsiSequences as a hand-written "
-        "leftmost non-overlapping matcher of \\x1b\\[[\\d;]+m, document trees; coq/Model/Table.v: NewTable/Cell/Skip/Fill/Collect; coq/Model/TextSer.v: the "
+        "leftmost non-overlapping matcher of \\x1b\\[[\\d;]*m, document trees; coq/Model/Table.v: NewTable/Cell/Skip/Fill/Collect; coq/Model/TextSer.v: the "
         "whole output of `klog print` as a document tree): for EVERY theme whose emitted units are concatenations of complete SGR sequences, everything "
-        "seqs emits is stripped to nothing; strip(render theme doc) = strip(render no_colour doc) for every document tree in which no SGR-shaped byte "
+        "seqs emits is stripped to nothing, and so is every sequence ESC [ (digit|;)* m; strip(render theme doc) = strip(render no_colour doc) for every document tree in which no SGR-shaped byte "
         "sequence straddles a style boundary of the unstyled text -- and that hypothesis is proved to be exactly the weakest (iff, decided by a boolean "
         "checker; refuted without it); the outputs of `klog print` and `print --with-totals` satisfy it for every list of records with ARBITRARY summary "
         "bytes (tags start with '#', values are ESC-free); a table whose cells are documents prints under every theme the rendering of ONE document "
@@ -67,11 +67,11 @@ CLAIMED = {
    design="§4 C18", technique="Coq proof (structural / length induction over byte lists, token lists and document trees; boolean reflection for the decidable "
                              "side conditions) over hand model; extracted-model-vs-Go differential correspondence; end-to-end metamorphic oracle over "
                              "colour-scheme variants",
-   note=TB + "Axioms: none (Closed under the global context, 22 theorems; 5 are stated *_refuted witnesses, 2 are *_partial: idempotence of strip only "
+   note=TB + "Axioms: none (Closed under the global context, 22 theorems; 4 are stated *_refuted witnesses, 2 are *_partial: idempotence of strip only "
              "on ESC-free residues; that the outputs of total/report/tags/today are documents of the proved shapes is read off the Go code and "
              "exercised end to end, a model-level correspondence exists for `print` and for tables in general only). Visible width = rune count after stripping, as the property says; terminal cell width of wide characters is out of "
-             "scope. Known finding K18 (StripAllAnsiSequences does not recognise the parameterless SGR sequence ESC[m, so `klog tags --values` misaligns "
-             "a row whose quoted tag value contains it) is printed, not suppressed beyond inputs whose only discrepancy is that sequence."),
+             "scope. Finding K18 (StripAllAnsiSequences did not recognise the parameterless SGR sequence ESC[m, so `klog tags --values` misaligned "
+             "a row whose quoted tag value contains it) is fixed by 332f4bb; its input stays in corpus/C18 and a recurrence is reported as a violation."),
  "C15": dict(
    text="Theorems in coq/Properties/C15.v over the executable model of klog's calendar code (coq/Model/Calendar.v, coq/Model/Period.v). "
         "Reference = the Gregorian rule itself (next_day from month lengths and the 4/100/400 leap rule): the day-number functions are mutually inverse "
